@@ -35,6 +35,9 @@ ASSUMPTIONS = [
     "Clear is applied to the class that owns the namespace (House, Tasker, Frame, Log), as ioflo's own code and tests do",
     "a rejection is any Exception raised by the constructor; a name that is not a duplicate must be accepted",
     "name uniqueness of FloScript-built programs (builder paths) is not part of this harness",
+    "partial-clear: one of Log / Store / Tasker is cleared on its own, the house is made current again directly or through "
+    "Framer.clone, then one Log or Tasker is created; Clear of the class whose instance is created makes the house's "
+    "registry the expected namespace again after the house is re-made current",
     "Framer/prune: the pruned framer is done (no exitAll) and has at most one frame holding one insular aux clone; a "
     "pruned framer counts as dead; the vacuity label 'current-is-other' is waived by a concrete probe while every prune "
     "under a foreign current namespace is a replayed violation",
